@@ -190,7 +190,12 @@ def history(ctx, fac, rng, nops):
             for k, obj in before.items():
                 if obj is None:
                     continue
-                z = tz.gettz(k[0])
+                try:
+                    z = tz.gettz(k[0])
+                except Exception as e:
+                    ctx.violation('request-raised', dict(case, after='set_cache_size(%d)' % n), '%s: %s' % (type(e).__name__, e))
+                    tz.gettz.set_cache_size(8)
+                    break
                 if z is not obj:
                     ctx.violation('identity-lost', dict(case, after='set_cache_size(%d)' % n), 'live zone %r was replaced by a new object' % (obj,))
                     break
@@ -244,11 +249,25 @@ def zone_pool(tz):
             ('range2', tz.tzrange('EST', -18000, 'EDT', -14400, relativedelta(hours=+2, month=4, day=1, weekday=SU(+1)),
                                   relativedelta(hours=+1, month=10, day=31, weekday=SU(-1)))),
             ('range3', tz.tzrange('EST', -18000)), ('local', tz.tzlocal())]
-    for n in ('America/New_York', 'Europe/London', 'Europe/Dublin'):
+    for n in ('America/New_York', 'Europe/London', 'Europe/Dublin', 'Etc/GMT+5', 'Etc/GMT-3', 'Etc/UTC', 'Etc/GMT+6'):
+        if not os.path.exists('/usr/share/zoneinfo/' + n):
+            continue
         z = tz.gettz(n)
         if z is not None:
             pool.append(('file:' + n, z))
             pool.append(('file-path:' + n, tz.tzfile('/usr/share/zoneinfo/' + n)))
+    # synthetic TZif zones that differ only in the parts a transition table does not show: the single type of a
+    # transition-less file, and the type in force before the first transition
+    import io
+    from vf.oracles import tzif_ref
+    W = tzif_ref.write_tzif
+    t0 = 946684800
+    for label, data in (('syn-fixed-west', W([], [], [(-18000, False, 'FWW')])), ('syn-fixed-east', W([], [], [(10800, False, 'FEE')])),
+                        ('syn-fixed-west2', W([], [], [(-18000, False, 'FWW')])),
+                        ('syn-lmt-a', W([t0], [1], [(3600, False, 'LMA'), (0, False, 'STD')])),
+                        ('syn-lmt-b', W([t0], [1], [(7200, False, 'LMB'), (0, False, 'STD')])),
+                        ('syn-lmt-a2', W([t0], [1], [(3600, False, 'LMA'), (0, False, 'STD')]))):
+        pool.append((label, tz.tzfile(io.BytesIO(data), filename=label)))
     return pool
 
 
@@ -404,6 +423,81 @@ def scheduled_race(ctx, tz, kind, ntasks, policy, label, sigs, neighbours=0):
         ctx.violation('identity-lost', case, 'a later request returned another object')
 
 
+def scheduled_clear(ctx, tz, policy, label, sigs):
+    """gettz requests racing with cache_clear(): every request that ends after the clear has finished must return the
+    same object, and the factory must still use the lock it was created with."""
+    names = [n for n in ('Europe/Paris', 'Europe/Madrid', 'Asia/Seoul', 'America/Denver') if os.path.exists('/usr/share/zoneinfo/' + n)]
+    if not names:
+        return
+    tz.gettz.cache_clear()
+    name = names[COUNTER[0] % len(names)]
+    COUNTER[0] += 1
+    s = S.Sched(policy, factory_codes(tz) + [type(tz.gettz).cache_clear.__code__], max_steps=60000)
+    real = tz.gettz._cache_lock
+    lock = S.ProxyLock(s, 'gettz.lock')
+    tz.gettz._cache_lock = lock
+    seq = [0]
+    log = []
+    clear_done = [None]
+
+    def req():
+        z = tz.gettz(name)
+        seq[0] += 1
+        log.append((seq[0], z))
+        return z
+
+    def clearer():
+        tz.gettz.cache_clear()
+        seq[0] += 1
+        clear_done[0] = seq[0]
+        return req()
+    s.install()
+    try:
+        results, completed = s.run([req, clearer, req, req], join_timeout=15)
+    finally:
+        s.uninstall()
+        replaced = tz.gettz._cache_lock is not lock
+        tz.gettz._cache_lock = real
+    ctx.ev()
+    ctx.count('scheduled_runs_gettz_clear')
+    sigs.add(('clear', s.signature()))
+    ctx.distinct('sched|gettz-clear|%s' % s.signature())
+    case = {'scenario': 'gettz-cache-clear-race', 'policy': label, 'schedule': [(a, b, str(c), d) for a, b, c, d in s.trace][:300]}
+    if replaced:
+        ctx.violation('factory-lock-replaced', case, 'gettz no longer uses the lock object it had when the run started: threads waiting on the '
+                                                     'old lock and new arrivals are no longer mutually exclusive')
+        return
+    if not completed:
+        ctx.inconclusive_because('scheduler did not complete a cache_clear run')
+        return
+    if s.deadlock:
+        ctx.violation('deadlock', case, repr(s.deadlock))
+        return
+    for i in range(4):
+        r = results.get('T%d' % i)
+        if r is None or r[0] != 'ok':
+            ctx.violation('request-raised-under-threads', case, 'T%d: %r' % (i, r))
+            return
+    # order of the critical sections, taken from the lock's own event log (the monitor's view is updated under the
+    # lock it observes; a counter bumped after release() would race with the scheduler)
+    acqs = [e[1] for e in lock.events if e[0] == 'acq']
+    after = []
+    seen_clear = False
+    t1_count = 0
+    for t in acqs:
+        if t == 'T1':
+            t1_count += 1
+            if t1_count == 1:
+                seen_clear = True
+                continue
+        if seen_clear:
+            after.append(results[t][1])
+    if len({id(z) for z in after}) > 1:
+        ctx.violation('two-live-objects-for-one-key', case, '%d different objects were returned by requests that ended after cache_clear() had finished' % len({id(z) for z in after}))
+    elif after and tz.gettz(name) is not after[-1]:
+        ctx.violation('identity-lost', case, 'a later request returned another object')
+
+
 def free_running(ctx, tz, rounds, nthreads):
     guards, unguard = locks.install_guards(locks.tz_factory_locks())
     sys.setswitchinterval(1e-6)
@@ -489,6 +583,12 @@ def run(ctx):
         else:
             pol, label = S.PCTPolicy(rng, nt, depth=rng.randint(1, 3), horizon=150), 'pct'
         scheduled_race(ctx, tz, kind, nt, pol, label, sigs, neighbours=rng.choice([0, 0, 3, 9]))
+    for k in range(1 + ctx.shard, 160, ctx.nshards):
+        for t in ('T0', 'T1', 'T2', 'T3'):
+            scheduled_clear(ctx, tz, S.PlanPolicy({k: t}), 'plan1', sigs)
+    for _ in range(60 if ctx.tier == 'quick' else 3000):
+        scheduled_clear(ctx, tz, S.RandomPolicy(rng, rng.choice([.1, .3, .6])) if rng.random() < .5 else S.PCTPolicy(rng, 4, depth=rng.randint(1, 3), horizon=120),
+                        'random', sigs)
     ctx.count('distinct_interleavings', len(sigs))
     free_running(ctx, tz, 60 if ctx.tier == 'quick' else 1500, rng.randint(4, 8))
     ctx.sample({'scenario': 'factory-race', 'distinct_interleavings_this_shard': len(sigs)})
@@ -499,7 +599,7 @@ def floors(agg, tier):
     c, out = agg['counters'], []
     for k, n in (('op_request', 5000), ('requests_with_live_object', 2000), ('op_fresh', 500), ('op_set_cache_size', 50), ('op_cache_clear', 30),
                  ('op_gc', 300), ('law_symmetric', 300), ('equal_pairs', 30), ('law_pickle', 60), ('law_copy', 15), ('law_deepcopy', 15),
-                 ('scheduled_runs_tzoffset', 300), ('scheduled_runs_tzstr', 200), ('scheduled_runs_gettz', 200), ('systematic_runs', 400),
+                 ('scheduled_runs_tzoffset', 300), ('scheduled_runs_tzstr', 200), ('scheduled_runs_gettz', 200), ('scheduled_runs_gettz_clear', 300), ('systematic_runs', 400),
                  ('distinct_interleavings', 400), ('free_running_rounds', 200)):
         if c.get(k, 0) < n:
             out.append('%s only %d (< %d)' % (k, c.get(k, 0), n))
